@@ -620,3 +620,197 @@ theorem tryFinally_setData_ok_inv {x : M α} {tmp : Option (Data Comp)} {st st''
   exact ⟨st', rfl, rfl⟩
 
 end FDA.Sim
+
+namespace FDA.Sim
+
+/-! ### no spurious faults: without a scheduled fault (`failAt = none`) an operation never ends
+with the injected error, and the schedule stays empty -/
+
+def NoInj (x : M α) : Prop :=
+  ∀ st, st.sc.failAt = none → (x st).1 ≠ .error .injected ∧ (x st).2.sc.failAt = none
+
+theorem NoInj.pure (a : α) : NoInj (pure a : M α) := fun st h => ⟨by simp, h⟩
+
+theorem NoInj.raise (e : Err) (he : e ≠ .injected) : NoInj (raise e : M α) := by
+  intro st h
+  refine ⟨?_, h⟩
+  unfold FDA.Sim.raise
+  intro hh
+  cases hh
+  exact he rfl
+
+theorem NoInj.tick (l : String) : NoInj (tick l) := by
+  intro st h
+  rw [tick_nofault h]
+  exact ⟨by simp, h⟩
+
+theorem NoInj.bind {x : M α} {f : α → M γ} (hx : NoInj x) (hf : ∀ a, NoInj (f a)) : NoInj (x >>= f) := by
+  intro st h
+  rcases bind_cases x f st with ⟨a, st', h1, h2⟩ | ⟨e, st', h1, h2⟩
+  · have := hx st h
+    rw [h1] at this
+    rw [h2]
+    exact hf a st' this.2
+  · have := hx st h
+    rw [h1] at this
+    rw [h2]
+    refine ⟨?_, this.2⟩
+    intro hh
+    apply this.1
+    simp only [Prod.mk.injEq, Except.error.injEq] at hh ⊢
+    exact hh
+
+theorem NoInj.call {x : M α} (l : String) (hx : NoInj x) : NoInj (call l x) := by
+  unfold FDA.Sim.call
+  exact NoInj.bind (NoInj.tick _) fun _ => NoInj.bind hx fun a => NoInj.bind (NoInj.tick _) fun _ => NoInj.pure a
+
+theorem NoInj.guardS (b : Bool) : NoInj (guardS b) := by
+  unfold FDA.Sim.guardS; split
+  · exact NoInj.pure _
+  · exact NoInj.raise _ (by decide)
+
+theorem NoInj.checkData : NoInj checkData := by
+  intro st h; unfold FDA.Sim.checkData; split
+  · exact ⟨by simp, h⟩
+  · exact ⟨by simp, h⟩
+
+theorem NoInj.checkDim : NoInj checkDim := by
+  intro st h; unfold FDA.Sim.checkDim; split
+  · exact ⟨by simp, h⟩
+  · split
+    · exact ⟨by simp, h⟩
+    · exact ⟨by simp, h⟩
+
+theorem NoInj.getData : NoInj getData := by
+  intro st h; unfold FDA.Sim.getData; split
+  · exact ⟨by simp, h⟩
+  · exact ⟨by simp, h⟩
+
+theorem NoInj.getSim : NoInj getSim := fun st h => ⟨by simp [FDA.Sim.getSim], h⟩
+theorem NoInj.setNoisy (d : Data Comp) : NoInj (setNoisy d) := fun st h => ⟨by simp [FDA.Sim.setNoisy], h⟩
+theorem NoInj.setSparse (d : Data SComp) : NoInj (setSparse d) := fun st h => ⟨by simp [FDA.Sim.setSparse], h⟩
+theorem NoInj.setData (d : Option (Data Comp)) : NoInj (setData d) := fun st h => ⟨by simp [FDA.Sim.setData], h⟩
+
+theorem NoInj.tryFinally {x : M α} {fin : M Unit} (hx : NoInj x) (hfin : NoInj fin) : NoInj (tryFinally x fin) := by
+  intro st h
+  unfold FDA.Sim.tryFinally
+  have h1 := hx st h
+  rcases hxs : x st with ⟨r, st'⟩
+  rw [hxs] at h1
+  have h2 := hfin st' h1.2
+  rcases hfs : fin st' with ⟨r2, st''⟩
+  rw [hfs] at h2
+  simp only [hfs]
+  cases r2 with
+  | ok u => exact ⟨h1.1, h2.2⟩
+  | error e =>
+    refine ⟨?_, h2.2⟩
+    intro hh
+    apply h2.1
+    simp only [Except.error.injEq] at hh ⊢
+    exact hh
+
+theorem NoInj.noiseComp (r : Rat) (c : Comp) (z : List (List Rat)) : NoInj (noiseComp r c z) := by
+  unfold FDA.Sim.noiseComp
+  exact NoInj.call _ (NoInj.bind (NoInj.call _ (NoInj.guardS _)) fun _ =>
+    NoInj.bind (NoInj.call _ (NoInj.pure _)) fun _ =>
+    NoInj.bind (NoInj.call _ (NoInj.pure _)) fun _ => NoInj.call _ (NoInj.pure _))
+
+theorem NoInj.noiseComps (r : Rat) :
+    ∀ (cs : List Comp) (zs : List (List (List Rat))), NoInj (noiseComps r cs zs)
+  | [], _ => by unfold FDA.Sim.noiseComps; exact NoInj.pure _
+  | _ :: _, [] => by unfold FDA.Sim.noiseComps; exact NoInj.raise _ (by decide)
+  | c :: cs, z :: zs => by
+    unfold FDA.Sim.noiseComps
+    exact NoInj.bind (NoInj.noiseComp r c z) fun _ => NoInj.bind (NoInj.noiseComps r cs zs) fun _ => NoInj.pure _
+
+theorem NoInj.noiseData (r : Rat) (zs : List (List (List Rat))) (d : Data Comp) :
+    NoInj (noiseData r zs d) := by
+  cases d with
+  | uni c =>
+    simp only [FDA.Sim.noiseData]
+    split
+    · exact NoInj.bind (NoInj.noiseComp r c _) fun _ => NoInj.pure _
+    · exact NoInj.raise _ (by decide)
+  | multi cs =>
+    simp only [FDA.Sim.noiseData]
+    exact NoInj.bind (NoInj.noiseComps r cs zs) fun _ => NoInj.call _ (NoInj.pure _)
+
+theorem NoInj.fallbackMask (repl : Bool) (n : Nat) (m0 : List Bool) (pair : Nat × Nat) :
+    NoInj (fallbackMask repl n m0 pair) := by
+  unfold FDA.Sim.fallbackMask
+  split
+  · refine NoInj.call _ ?_
+    split
+    · split
+      · exact NoInj.pure _
+      · exact NoInj.raise _ (by decide)
+    · split
+      · exact NoInj.raise _ (by decide)
+      · split
+        · exact NoInj.pure _
+        · exact NoInj.raise _ (by decide)
+  · exact NoInj.pure _
+
+theorem NoInj.sparsifyCurve (repl : Bool) (n : Nat) (p e : Rat) (row : List Rat) (s : CurveScript) :
+    NoInj (sparsifyCurve repl n p e row s) := by
+  unfold FDA.Sim.sparsifyCurve
+  exact NoInj.bind (NoInj.call _ (NoInj.guardS _)) fun _ => NoInj.bind (NoInj.fallbackMask _ _ _ _) fun _ => NoInj.pure _
+
+theorem NoInj.sparsifyCurves (repl : Bool) (n : Nat) (p e : Rat) :
+    ∀ (rows : List (List Rat)) (ss : List CurveScript), NoInj (sparsifyCurves repl n p e rows ss)
+  | [], _ => by unfold FDA.Sim.sparsifyCurves; exact NoInj.pure _
+  | _ :: _, [] => by unfold FDA.Sim.sparsifyCurves; exact NoInj.raise _ (by decide)
+  | row :: rows, s :: ss => by
+    unfold FDA.Sim.sparsifyCurves
+    exact NoInj.bind (NoInj.sparsifyCurve repl n p e row s) fun _ =>
+      NoInj.bind (NoInj.sparsifyCurves repl n p e rows ss) fun _ => NoInj.pure _
+
+theorem NoInj.sparsifyComp (repl : Bool) (p e : Rat) (c : Comp) (s : List CurveScript) :
+    NoInj (sparsifyComp repl p e c s) := by
+  unfold FDA.Sim.sparsifyComp
+  exact NoInj.call _ (NoInj.bind (NoInj.call _ (NoInj.guardS _)) fun _ =>
+    NoInj.bind (NoInj.sparsifyCurves repl _ p e _ _) fun _ =>
+    NoInj.bind (NoInj.call _ (NoInj.pure _)) fun _ =>
+    NoInj.bind (NoInj.call _ (NoInj.pure _)) fun _ => NoInj.call _ (NoInj.pure _))
+
+theorem NoInj.sparsifyComps (repl : Bool) (p e : Rat) :
+    ∀ (cs : List Comp) (ss : List (List CurveScript)), NoInj (sparsifyComps repl p e cs ss)
+  | [], _ => by unfold FDA.Sim.sparsifyComps; exact NoInj.pure _
+  | _ :: _, [] => by unfold FDA.Sim.sparsifyComps; exact NoInj.raise _ (by decide)
+  | c :: cs, s :: ss => by
+    unfold FDA.Sim.sparsifyComps
+    exact NoInj.bind (NoInj.sparsifyComp repl p e c s) fun _ =>
+      NoInj.bind (NoInj.sparsifyComps repl p e cs ss) fun _ => NoInj.pure _
+
+theorem NoInj.sparsifyData (repl : Bool) (p e : Rat) (ss : List (List CurveScript)) (d : Data Comp) :
+    NoInj (sparsifyData repl p e ss d) := by
+  cases d with
+  | uni c =>
+    simp only [FDA.Sim.sparsifyData]
+    split
+    · exact NoInj.bind (NoInj.sparsifyComp repl p e c _) fun _ => NoInj.pure _
+    · exact NoInj.raise _ (by decide)
+  | multi cs =>
+    simp only [FDA.Sim.sparsifyData]
+    exact NoInj.bind (NoInj.sparsifyComps repl p e cs ss) fun _ => NoInj.call _ (NoInj.pure _)
+
+
+theorem NoInj.addNoise (r : Rat) (zs : List (List (List Rat))) : NoInj (addNoise r zs) := by
+  unfold FDA.Sim.addNoise
+  exact NoInj.call _ (NoInj.bind (NoInj.call _ NoInj.checkData) fun _ => NoInj.bind NoInj.getData fun d =>
+    NoInj.bind (NoInj.noiseData r zs d) fun nd => NoInj.setNoisy nd)
+
+theorem NoInj.sparsify (repl : Bool) (p e : Rat) (ss : List (List CurveScript)) : NoInj (sparsify repl p e ss) := by
+  unfold FDA.Sim.sparsify
+  exact NoInj.call _ (NoInj.bind (NoInj.call _ NoInj.checkData) fun _ =>
+    NoInj.bind (NoInj.call _ NoInj.checkDim) fun _ => NoInj.bind NoInj.getData fun d =>
+    NoInj.bind (NoInj.sparsifyData repl p e ss d) fun sd => NoInj.setSparse sd)
+
+theorem NoInj.combined (repl : Bool) (r : Rat) (zs : List (List (List Rat))) (p e : Rat)
+    (ss : List (List CurveScript)) : NoInj (combined repl r zs p e ss) := by
+  unfold FDA.Sim.combined
+  exact NoInj.bind (NoInj.addNoise r zs) fun _ => NoInj.bind NoInj.getSim fun s =>
+    NoInj.bind (NoInj.setData _) fun _ => NoInj.tryFinally (NoInj.sparsify repl p e ss) (NoInj.setData _)
+
+end FDA.Sim
